@@ -251,6 +251,18 @@ def map_reports(reports, data, repo=None):
             a, b = b, a
         common = sorted(a["cands"] & b["cands"])
         fpair = "%s [%s %s] x %s [%s %s]" % (a["func"], a["op"], a["pos"], b["func"], b["op"], b["pos"])
+        lost = [x for x in (a, b) if x["func"] == "[stack not restored]"]
+        if len(lost) == 1 and not common:
+            # the race detector could not restore the second stack (its history had been overwritten): the report still
+            # names a field (the side that is known) - it is matched with the table's conflicts on that field in which the
+            # known side's kind takes part; only when there is none is it a race outside the table
+            known = b if lost[0] is a else a
+            trip = sorted((k, ka, kb) for (k, ka, kb) in conflicts if k in known["cands"] and known["kind"] in (ka, kb))
+            if trip:
+                k, ka, kb = trip[0]
+                e = pairs.setdefault((k, ka, kb), {"key": k, "kindA": ka, "kindB": kb, "n": 0, "functions": fpair})
+                e["n"] += 1
+                continue
         if not common:
             # one side mapped: still say which fields it could be
             either = sorted(a["cands"] | b["cands"])
